@@ -193,37 +193,46 @@ Theorem C03_tl_spec_model : forall c, tl_spec c (tl_model c) = true.
 Proof. exact tl_spec_model. Qed.
 Print Assumptions C03_tl_spec_model.
 
-(* K4, statement layer (round 5: with blank nodes written as LABELS, _:id as BNode.n3() gives it - what the serialiser does
-   with a blank node it cannot nest: referenced more than once, or a subject that is referenced; the [ ] and ( ) forms
-   are not modelled, "which blank nodes are written as labels" is part of the observed plan like the ordering).  The
-   theorem returns the SAME labels; rdflib's Turtle reader renames them per document (C12), the harness undoes that.
-   The Turtle text TurtleSerializer writes for such a graph (header of @prefix
-   lines, one statement per subject with ; and , lists, a for rdf:type, () for rdf:nil, prefixed names or <iri>,
-   literals quoted by Literal._quote_encode with @lang / ^^datatype, bare xsd:integer and xsd:boolean) and a reader for
-   exactly that sub-language.  The grouping/ordering (plan) and the prefixed-name decisions (q, with the prefix table
-   ns) are inputs: the theorem holds for EVERY plan, EVERY prefix table and EVERY prefixed-name decision that is
+(* K4, statement layer.  The Turtle text TurtleSerializer writes for a graph (header of @prefix lines, one statement per
+   subject with ; and , lists, a for rdf:type, () for rdf:nil, prefixed names or <iri>, literals quoted by
+   Literal._quote_encode with @lang / ^^datatype, bare xsd:integer and xsd:boolean, blank nodes) and a reader for exactly
+   that sub-language.
+   Blank nodes (rounds 5 and 5b).  A blank node the serialiser cannot nest (referenced more than once, or a subject that
+   is referenced) is written as a LABEL, _:id as BNode.n3() gives it.  A blank node referenced exactly once, as an
+   object, is written NESTED, [ p o ; p o , o ] with the serialiser's white space and indentation (and [ ] when it has no
+   statements); ONE nesting level is modelled: the objects inside a bracket are IRIs, literals or labelled blank nodes.
+   Which nodes are nested (the table n : label -> own predicate list) is part of the observed plan, like the ordering.
+   The ( ) collection form is not modelled.
+   The reader draws the label of each bracketed node from a SUPPLY that is a parameter of read_doc (a Turtle reader
+   invents such labels); the theorem is stated for the supply plan_sup n pl that hands out the labels the plan records,
+   in the order of the opening brackets, i.e. the round trip holds up to the renaming of the bracketed nodes that any
+   other supply induces.  Written labels come back as the SAME labels; rdflib's Turtle reader renames all of them per
+   document (C12), the harness undoes that by order of appearance.
+   The grouping/ordering (plan), the nest table and the prefixed-name decisions (q, with the prefix table ns) are inputs:
+   the theorem holds for EVERY plan, EVERY nest table, EVERY prefix table and EVERY prefixed-name decision that is
    consistent with the table (prefix declared, namespace ++ local = IRI, prefix and local free of blanks, commas and -
-   for the prefix - colons).  The lexer finds exactly the writer's tokens ... *)
+   for the prefix - colons, prefix not starting with an underscore).  The lexer finds exactly the writer's tokens ... *)
 (* NOTE on the reader: read_doc / lexs / run are a BESPOKE reader for the sub-language this writer emits; they are not a
    model of rdflib/plugins/parsers/notation3.py.  notation3.py is tied to them per generated case only (suite ttl_stmt
-   compares rdflib's parse of the text with read_doc's triples); the plan and every prefixed-name decision are inputs
-   observed from the serialiser under test. *)
-Theorem C03_turtle_stmt_lexing : forall ns q pl, ns_ok ns = true -> q_ok ns q = true -> plan_ok pl = true ->
-  lexs 0 (write_doc ns q pl) = toks_doc ns q pl.
+   compares rdflib's parse of the text with read_doc's triples); the plan, the nest table and every prefixed-name
+   decision are inputs observed from the serialiser under test. *)
+Theorem C03_turtle_stmt_lexing : forall ns q n pl, ns_ok ns = true -> q_ok ns q = true -> plan_ok n pl = true ->
+  lexs 0 (write_doc ns q n pl) = toks_doc ns q n pl.
 Proof. exact lex_doc. Qed.
 Print Assumptions C03_turtle_stmt_lexing.
 
-(* ... and reading the text gives back the triples of the plan, in order: nothing lost, added or retyped. *)
-Theorem C03_turtle_stmt_roundtrip : forall ns q pl, ns_ok ns = true -> q_ok ns q = true -> plan_ok pl = true ->
-  read_doc (write_doc ns q pl) = Some (plan_triples pl).
+(* ... and reading the text gives back the triples of the plan, in order - for a nested node: the triple that refers to
+   it, then its own triples - nothing lost, added or retyped. *)
+Theorem C03_turtle_stmt_roundtrip : forall ns q n pl, ns_ok ns = true -> q_ok ns q = true -> plan_ok n pl = true ->
+  read_doc (plan_sup n pl) (write_doc ns q n pl) = Some (plan_triples n pl).
 Proof. exact read_write_doc. Qed.
 Print Assumptions C03_turtle_stmt_roundtrip.
 
 (* what the ttl_stmt suite checks of rdflib's text and of rdflib's parse of it holds of the model whenever the plan
-   the serialiser computed covers the graph (that part - orderSubjects, buildPredicateHash, sortProperties - is
-   checked on every case, not proved: _partial) *)
+   the serialiser computed covers the graph (that part - orderSubjects, buildPredicateHash, sortProperties, the choice
+   of the nested nodes - is checked on every case, not proved: _partial) *)
 Theorem C03_ts_spec_model_partial : forall c, ts_wf c = true ->
-  tset_eqb (plan_triples (ts_plan c)) (ts_g c) = true -> ts_spec c (ts_model c) = true.
+  tset_eqb (plan_triples (ts_nest c) (ts_plan c)) (ts_g c) = true -> ts_spec c (ts_model c) = true.
 Proof. exact ts_spec_model. Qed.
 Print Assumptions C03_ts_spec_model_partial.
 
